@@ -46,7 +46,10 @@ NoCfg == [op |-> "none"]
 
 InitObs == [
   cfg       |-> NoCfg,
-  conn      |-> "none",     \* transport, client side: none / open / closed
+  conn      |-> "none",     \* transport, client side: none / open / closed (of the latest connection)
+  ncon      |-> 0,          \* transports opened so far; the k-th one has id k
+  openSet   |-> {},         \* ids of the transports that are open
+  callOpened |-> {},        \* ids of the transports the running call opened
   srvGone   |-> FALSE,      \* the server dropped the connection
   ss        |-> "pre",      \* Rfc5321 server state
   helo      |-> FALSE,
@@ -192,7 +195,7 @@ ObserveRet(o, e) ==
   [o EXCEPT
      !.ret  = IF e.op \in {"Dial", "Send", "DialAndSend", "Reset"} THEN e ELSE @,
      !.viol = @ \cup Flag("C19_ClosedOnError",
-                          (Dialing(e.op) /\ e.err /\ o.conn # "none") => o.conn = "closed")
+                          (Dialing(e.op) /\ e.err /\ o.conn # "none") => (o.conn = "closed" /\ o.callOpened \cap o.openSet = {}))
                 \cup Flag("C19_ClosedAfterDialAndSend",
                           \* (o.conn = "none": implicit TLS over the library's own dialer - the transport cannot be tapped)
                           (e.op = "DialAndSend" /\ ~e.err) => (o.quitSent /\ (o.conn # "none" => o.conn = "closed")))
@@ -290,8 +293,8 @@ RetProj(x) ==
 -----------------------------------------------------------------------------
 Observe(o, e) ==
   CASE e.ev = "begin"  -> [InitObs EXCEPT !.cfg = e.cfg]
-    [] e.ev = "call"   -> [o EXCEPT !.last = 0]
-    [] e.ev = "open"   -> [o EXCEPT !.conn = "open"]
+    [] e.ev = "call"   -> [o EXCEPT !.last = 0, !.callOpened = {}]
+    [] e.ev = "open"   -> [o EXCEPT !.conn = "open", !.ncon = @ + 1, !.openSet = @ \cup {o.ncon + 1}, !.callOpened = @ \cup {o.ncon + 1}]
     [] e.ev = "greet"  -> [o EXCEPT !.ss = IF Positive(e.cls) THEN "idle" ELSE @,
                                     !.viol = @ \cup Flag("C04_NothingBeforeGreeting", ~e.early)]
     [] e.ev = "cmd"    -> ObserveCmd(o, e)
@@ -313,7 +316,9 @@ Observe(o, e) ==
     [] e.ev = "log"    -> [o EXCEPT !.viol = @
                               \cup Flag("C16_NoSecretInLog", o.cfg.logauth \/ ~e.leak)
                               \cup Flag("C16_WindowCloses", e.post => e.verbatim)]
-    [] e.ev = "cclose" -> [o EXCEPT !.conn = "closed"]
+    \* (recorded events name the transport; the design model always closes the latest one)
+    [] e.ev = "cclose" -> LET id == IF "cid" \in DOMAIN e THEN e.cid ELSE o.ncon IN
+                          [o EXCEPT !.conn = IF id = o.ncon THEN "closed" ELSE @, !.openSet = @ \ {id}]
     [] e.ev = "ret"    -> ObserveRet(o, e)
     [] e.ev = "end"    -> ObserveEnd(o, e)
     [] OTHER           -> o
